@@ -40,17 +40,22 @@ def _log2(x):
 
 
 def _build(cfg):
+    fe = (lambda fs: [wishbone.Feature(f) for f in fs]) if cfg.get("enum") else (lambda fs: fs)
     dec = wishbone.Decoder(addr_width=cfg["aw"], data_width=cfg["dw"], granularity=cfg["gran"],
-                           features=cfg["feat"], alignment=cfg["align"])
+                           features=fe(cfg["feat"]), alignment=cfg["align"])
     subs = []
     for i, s in enumerate(cfg["subs"]):
         bus = wishbone.Interface(addr_width=s["aw"], data_width=s["dw"], granularity=s["gran"],
-                                 features=s["feat"], path=(f"sub{i}",))
+                                 features=fe(s["feat"]), path=(f"sub{i}",))
         bus.memory_map = MemoryMap(addr_width=s["aw"] + _log2(s["dw"] // s["gran"]), data_width=s["gran"])
         if s.get("align_to") is not None:
             dec.align_to(s["align_to"])
         dec.add(bus, name=(f"w{i}" if s.get("named") else None), addr=s.get("addr"), sparse=s["sparse"])
         subs.append(bus)
+        if cfg.get("staged") == i + 1:
+            # the decoder is elaborated (e.g. a partial system is simulated) and extended afterwards
+            from amaranth.hdl import Fragment
+            Fragment.get(dec, None)
     return dec, subs
 
 
@@ -66,7 +71,8 @@ def configs(tier, seed):
         gbits = _log2(dw // gran)
         aw = rnd.randint(2, 6 if tier == "quick" else 8) if tries % 25 else rnd.choice([12, 20, 30])
         feat = [f for f in FEATS if rnd.random() < 0.5]
-        cfg = {"aw": aw, "dw": dw, "gran": gran, "feat": feat, "align": rnd.choice([0, 0, 0, 1, 2, 3]), "subs": []}
+        cfg = {"aw": aw, "dw": dw, "gran": gran, "feat": feat, "align": rnd.choice([0, 0, 0, 1, 2, 3]), "subs": [],
+               "staged": rnd.choice([None, None, 1, 2]), "enum": rnd.random() < 0.4}
         for i in range(rnd.randint(0 if rnd.random() < 0.05 else 1, 3 if tier == "quick" else 4)):
             sparse = rnd.random() < 0.35
             if sparse:
